@@ -67,7 +67,7 @@ fn registry(id: &str) -> Option<PropDef> {
         },
         "C06" => PropDef {
             level: "exploration",
-            subs: vec![random::<c06::Typed>()],
+            subs: vec![random::<c06::Typed>(), random::<c06::TypedForeign>()],
             assumptions: vec!["the 13 x 14 (requested, actual) matrix is covered completely by every generated file; file contents are sampled"],
         },
         "C07" => PropDef {
